@@ -197,6 +197,34 @@ pub fn check(c: &Case) -> Outcome {
             multi_steps += 1;
         }
     }
+    // with terminal flags the run stops early, but no sign change before the stop may go unreported: every
+    // function's events are exactly those of the run above that are not later than the stop
+    if resolved.iter().any(|(e, _)| e.terminal.is_some()) {
+        let evt: Vec<EvSpec> = resolved.iter().map(|(e, _)| e.clone()).collect();
+        let mut it = Instr::new(&prob, &evt);
+        it.dir = d;
+        it.use_jac = c.analytic_jac;
+        let st = match solve(&it, sp.x0, sp.xend, &prob.y0(), &opts(c, n, false, None)) {
+            RunResult::Ok(s) => s,
+            other => return Outcome::viol(format!("{}: the run solves without terminal flags but with them gives {}", name, other.describe())),
+        };
+        if st.status == ivp::prelude::Status::UserInterrupt {
+            let t_stop = *st.t.last().unwrap();
+            for k in 0..evt.len() {
+                let want: Vec<f64> = sol.t_events[k].iter().copied().filter(|t| (t - t_stop) * d <= 1e-12 * (1.0 + t_stop.abs())).collect();
+                let got = &st.t_events[k];
+                // the stopping event itself may be the last of its function; events strictly before the stop must all be there
+                let strictly_before: Vec<f64> = sol.t_events[k].iter().copied().filter(|t| (t - t_stop) * d < -1e-12 * (1.0 + t_stop.abs())).collect();
+                let ok = got.len() >= strictly_before.len() && got.len() <= want.len() && bits_eq(&got[..], &want[..got.len()]);
+                if !ok {
+                    return Outcome::viol(format!(
+                        "{}: with the terminal flags the run stops at {:e}; function {} ({:?}) then reports {:?}, but without the flags its events up to the stop are {:?}",
+                        name, t_stop, k, evt[k].g, got, want
+                    ));
+                }
+            }
+        }
+    }
     let class = format!("{}:{}", name, if multi_steps > 0 { "multi" } else if sign_changes > 0 { "single" } else { "none" });
     Outcome::pass(class, sign_changes > 0, json!({"steps": m - 1, "sign_changes": sign_changes, "steps_with_two_or_more": multi_steps, "zero_endpoint_pairs_skipped": zero_skips}))
 }
@@ -208,7 +236,7 @@ pub fn strategy() -> BoxedStrategy<Case> {
     (prob_spec(4, 0.5, 8.0), span, any_method(), tols(4, 3.0, 9.0), any::<bool>(), proptest::option::weighted(0.2, log10(-1.5, 0.0)), proptest::option::weighted(0.25, log10(-3.0, -0.7)))
         .prop_flat_map(|(prob, span, method, tol, aj, ms, fs)| {
             let n: usize = prob.blocks.iter().map(|b| b.dim()).sum();
-            (Just((prob, span, method, tol, aj, ms, fs)), recipes(n, 4, 0.0))
+            (Just((prob, span, method, tol, aj, ms, fs)), recipes(n, 4, 0.25))
         })
         .prop_map(|((prob, span, method, (rtol, atol), analytic_jac, max_step, first_step), recipes)| Case { prob, span, method, rtol, atol, analytic_jac, max_step, recipes, first_step })
         .boxed()
